@@ -72,6 +72,13 @@ def check(run):
     now = {s["key"] for s in inv["sites"]}
     new_sites = sorted(now - pinned)
     run.notes["panic_ledger"] = {"sites_now": len(now), "pinned": len(pinned), "new": new_sites[:20], "gone": len(pinned - now), "unparsed_files": inv["unparsed"]}
+    # `_ => unreachable!()` arms after a keyword-list parse: the list and the arms must coincide
+    kwm = inv.get("unreachable_keyword_matches", [])
+    not_covered = [x for x in kwm if x["verdict"] == "NOT-covered"]
+    unknown = sorted("%s::%s#%d" % (x["file"], x["fn"], x["ordinal"]) for x in kwm if x["verdict"] == "unknown-origin")
+    REVIEWED_UNKNOWN = ["src/parser/mod.rs::parse_prefix#0", "src/parser/mod.rs::parse_wildcard_expr#0"]  # match on a token kind bound by the enclosing arm
+    run.notes["unreachable_keyword_matches"] = {"covered": sum(1 for x in kwm if x["verdict"] == "covered"), "not_covered": not_covered, "unknown_origin": unknown}
+    extra_keywords = sorted({k for x in not_covered for k in (x["list"] or []) if k not in x["arms"]})
     for u in inv["unparsed"]:
         run.violation({"what": "source file could not be parsed by the translator", "unchecked": "panic-site ledger: " + u}, no_input=True)
 
@@ -86,6 +93,14 @@ def check(run):
                "CREATE EXTERNAL TABLE t (a INT)", "SELECT * FROM t MATCH_RECOGNIZE(", "COPY t FROM STDIN;\n1\t2\n\\.", "SELECT $", "SELECT $1$", "SELECT U&'\\", "SELECT E'\\", "SELECT 0x", "SELECT 1e",
                "DECLARE", "DECLARE @", "SET", "SHOW", "KILL", "ALTER TABLE t", "CREATE", "INSERT INTO t VALUES", "WITH", "EXPLAIN", "BEGIN", "CALL", "a b", "\U0001F600", "SELECT * FROM t AS OF",
                "CREATE SEQUENCE s OWNED BY", "CREATE SEQUENCE s", "COPY INTO t FROM @s", "CREATE STAGE s URL=", "SELECT INTERVAL", "SELECT INTERVAL '1'", "LOCK TABLES", "UNLOCK"]
+    for kw in extra_keywords:
+        # directed search: splice the uncovered keyword after every keyword-ish token of statements of that family
+        for e in corpus():
+            toks = e["sql"].split()
+            for i in range(1, min(len(toks), 12)):
+                hostile.append(" ".join(toks[:i] + [kw] + toks[i:]))
+                hostile.append(" ".join(toks[:i] + [kw] + toks[i + 1:]))
+        hostile = hostile[:len(hostile)] if len(hostile) < 60000 else run.rng.sample(hostile, 60000)
     for h in hostile:
         for d in (DIALECTS if run.tier == "thorough" else run.rng.sample(DIALECTS, 4)):
             cases.append({"dialect": d, "sql": h, "seed": run.rng.randrange(1 << 30), "mutants": 6, "all_truncations": True})
@@ -128,6 +143,13 @@ def check(run):
             run.violation({"what": "work doubles with every nesting level" if kind == "exp" else "panic on nested input", "template": t, "dialect": d,
                            "input": "nest_text(%r, %d) of harness/vh/src/bin/drive.rs" % (t, info["n"]), "observed": info})
 
+    for x in not_covered:
+        if viol == 0:
+            run.violation({"what": "a keyword accepted by parse_one_of_keywords has no arm: the `_ => unreachable!()` arm is reachable",
+                           "unchecked": "unreachable-arm coverage %s::%s#%d" % (x["file"], x["fn"], x["ordinal"]), "keyword_list": x["list"], "arms": x["arms"]}, no_input=True)
+    for k in unknown:
+        if k not in REVIEWED_UNKNOWN and viol == 0:
+            run.violation({"what": "an `_ => unreachable!()` arm whose scrutinee the translator cannot relate to a keyword list", "unchecked": "unreachable-arm coverage " + k}, no_input=True)
     # 4. new panic sites: directed search already ran (stress covers all statement kinds of the corpus); none found -> obligation
     if new_sites and viol == 0:
         run.violation({"what": "panic site(s) not in the pinned ledger and not discharged", "unchecked": "panic-site ledger (pins/C02_panic_sites.json)", "new_sites": new_sites[:20]}, no_input=True)
